@@ -54,12 +54,14 @@ type c18Probe struct {
 	lastAt   int64
 	okAfter  int64          // first good call at the panic site after the last panic (-1 none yet)
 	inWindow map[string]int // good calls per site within (first panic, first panic + cool-down]
+	inLast   map[string]int // good calls per site within (last panic, last panic + cool-down]
+	pipeDone bool           // a pipeline call that began after the last panic has returned
 	panicked chan struct{}  // closed at the first injected panic
 	once     sync.Once
 }
 
 func newC18Probe(site string, atCall, count int, coolDown int64) *c18Probe {
-	return &c18Probe{t0: time.Now(), coolDown: coolDown, calls: map[string]int{}, inWindow: map[string]int{},
+	return &c18Probe{t0: time.Now(), coolDown: coolDown, calls: map[string]int{}, inWindow: map[string]int{}, inLast: map[string]int{},
 		site: site, atCall: atCall, count: count, firstAt: -1, lastAt: -1, okAfter: -1, panicked: make(chan struct{})}
 }
 
@@ -77,12 +79,17 @@ func (p *c18Probe) hit(site string) {
 		}
 		p.lastAt = now
 		p.okAfter = -1
+		p.inLast = map[string]int{}
+		p.pipeDone = false
 	} else {
 		if site == p.site && p.lastAt >= 0 && p.okAfter < 0 {
 			p.okAfter = now
 		}
 		if p.firstAt >= 0 && now > p.firstAt && now <= p.firstAt+p.coolDown {
 			p.inWindow[site]++
+		}
+		if p.lastAt >= 0 && now > p.lastAt && now <= p.lastAt+p.coolDown {
+			p.inLast[site]++
 		}
 	}
 	p.mu.Unlock()
@@ -109,11 +116,26 @@ func (p *c18Probe) panicInfo() (n int, first, last, okAfter int64) {
 	return p.nPanics, p.firstAt, p.lastAt, p.okAfter
 }
 
-// good calls at a site during the cool-down that followed the first panic
-func (p *c18Probe) okInWindow(site string) int {
+// good calls at a site during the cool-down period that followed the first panic, and the one that followed the last
+func (p *c18Probe) okInWindow(site string) (afterFirst, afterLast int) {
 	p.mu.Lock()
 	defer p.mu.Unlock()
-	return p.inWindow[site]
+	return p.inWindow[site], p.inLast[site]
+}
+
+// pipelineReturned is called when a pipeline call that began at `began` (virtual ns since t0) returns normally
+func (p *c18Probe) pipelineReturned(began int64) {
+	p.mu.Lock()
+	if p.lastAt >= 0 && began > p.lastAt {
+		p.pipeDone = true
+	}
+	p.mu.Unlock()
+}
+
+func (p *c18Probe) pipelineDoneAfterLastPanic() bool {
+	p.mu.Lock()
+	defer p.mu.Unlock()
+	return p.pipeDone
 }
 
 type c18LogProvider struct {
@@ -174,7 +196,9 @@ type c18Pipeline struct {
 }
 
 func (f *c18Pipeline) CheckUpkeeps(ctx context.Context, ps ...ocr2keepers.UpkeepPayload) ([]ocr2keepers.CheckResult, error) {
+	began := int64(time.Since(f.p.t0))
 	f.p.hit(c18SitePipeline)
+	defer f.p.pipelineReturned(began)
 	if f.latency > 0 {
 		if f.honorCtx {
 			select {
